@@ -1575,17 +1575,17 @@ def main(chk: C.Check, build: C.Build) -> None:
     sub_three = three[:: (4 if not thorough else 25)]
     base = sub_short + sub_three + longer
     pick = (lambda l, n: l[:: n]) if not thorough else (lambda l, n: l[:: max(1, n // 4)])
-    tie_unescape(run, [raw.replace("\\'", "'") if q == SQ else raw for q, s, raw in base] + BOUNDARY + pick(mal, 6))
+    tie_unescape(run, [raw.replace("\\'", "'") if q == SQ else raw for q, s, raw in base] + BOUNDARY + pick(mal, 8))
     lap("tie_unescape")
     ts_cases = gen_template_strings(run, short[:: 3] + longer, 150 if not thorough else 1500)
-    scan_in = [(q, raw) for q, s, raw in pick(base, 3)] \
+    scan_in = [(q, raw) for q, s, raw in pick(base, 4)] \
         + [(q, raw) for raw in BOUNDARY for q in (SQ, DQ)] \
         + [(r.choice((SQ, DQ)), raw) for raw in pick(mal, 16)] + ts_cases
     tie_scanners(run, scan_in, [" }}", "", "] }}", "x", " | f: 'a'"])
     lap("tie_scanners")
     val_in = [(q, raw) for q, s, raw in pick(base, 5)] \
         + [(r.choice((SQ, DQ)), raw) for raw in BOUNDARY + pick(mal, 16)]
-    tie_site_values(run, val_in, 6 if not thorough else 2)
+    tie_site_values(run, val_in, 9 if not thorough else 2)
     lap("tie_site_values")
     tie_template_values(run, ts_cases)
     oracle_binding_template_strings(run, ts_cases + [(SQ, ""), (DQ, ""), (DQ, "${x}"), (SQ, "${x}${y}"), (DQ, "a${x}")])
